@@ -101,6 +101,10 @@ impl FrameEncoder {
             let writer = (&mut buf).writer();
             let mut serializer = Serializer::from(writer);
             transfer.serialize(&mut serializer)?;
+            if buf.len() > self.max_frame_body_size {
+                // The performative alone does not fit in a frame
+                return Err(serde_amqp::Error::InvalidLength);
+            }
             let split_index = self.max_frame_body_size - buf.len();
 
             // Send first frame
@@ -119,6 +123,10 @@ impl FrameEncoder {
             let writer = (&mut buf).writer();
             let mut serializer = Serializer::from(writer);
             transfer.serialize(&mut serializer)?;
+            if buf.len() >= self.max_frame_body_size {
+                // No payload could be carried by the following frames
+                return Err(serde_amqp::Error::InvalidLength);
+            }
 
             let mut remaining_bytes = buf.len() + payload.len();
             let split_index = self.max_frame_body_size - buf.len();
